@@ -584,6 +584,15 @@ def state_dep(an, k, iterate):
 
 
 # ---------------------------------------------------------------------------------------------------------------------
+def oriented(cmp, wants_left):
+    """the single-operator comparison with the side satisfying wants_left on the left (a < b is b > a)"""
+    if isinstance(cmp, ast.Compare) and len(cmp.ops) == 1 and not wants_left(cmp.left) and wants_left(cmp.comparators[0]):
+        m = {ast.Lt: ast.Gt, ast.Gt: ast.Lt, ast.LtE: ast.GtE, ast.GtE: ast.LtE, ast.Eq: ast.Eq, ast.NotEq: ast.NotEq}.get(type(cmp.ops[0]))
+        if m is not None:
+            return ast.Compare(left=cmp.comparators[0], ops=[m()], comparators=[cmp.left])
+    return cmp
+
+
 def rule_success(chk, funcs, names):
     """success (return 0) implies the convergence test passed: neither an empty nor an exhausted loop may report success"""
     for nm in names:
@@ -611,8 +620,9 @@ def rule_success(chk, funcs, names):
             chk.decide(init_false, 'success-implies-converged', nm + ':flag-initialised', node=before[0] if before else loop, file=RS, func=nm,
                        detail_bad='`%s` is assigned only inside the loop: with niter <= 0 the test after the loop reads an unassigned local (UnboundLocalError in Python, indeterminate when '
                                   'transpiled) and success may be reported for a state that was never iterated' % flag, detail_ok='%s = 0 before the loop' % flag)
-            cmp_ok = len(inloop) == 1 and isinstance(inloop[0].value, ast.Compare) and 'tol' in compact(inloop[0].value) and isinstance(inloop[0].value.ops[0], (ast.Lt, ast.LtE)) \
-                and len(assigns) == len(inloop) + len(before)
+            ftest = oriented(inloop[0].value, lambda e_: 'tol' not in compact(e_)) if len(inloop) == 1 else None       # <change> on the left, the tolerance on the right
+            cmp_ok = len(inloop) == 1 and isinstance(ftest, ast.Compare) and 'tol' in compact(ftest.comparators[0]) and 'tol' not in compact(ftest.left) \
+                and isinstance(ftest.ops[0], (ast.Lt, ast.LtE)) and len(assigns) == len(inloop) + len(before)
             chk.decide(cmp_ok, 'success-implies-converged', nm + ':flag-is-the-test', node=inloop[0] if inloop else loop, file=RS, func=nm,
                        detail_bad='`%s` must be set only by `<change> < tol` inside the loop' % flag, detail_ok='%s = %s' % (flag, compact(inloop[0].value)[:60]) if inloop else '')
             g = M.enclosing(succ[0], ast.If)
@@ -631,15 +641,16 @@ def rule_success(chk, funcs, names):
             fails = [s for s in post if isinstance(s, ast.If) and any(isinstance(r, ast.Return) and isinstance(r.value, ast.Constant) and r.value.value == 1 for r in ast.walk(s))
                      and s.lineno < succ[0].lineno]
             form = None
-            if len(fails) == 1 and isinstance(fails[0].test, ast.Compare) and compact(fails[0].test.left) == ivar and len(fails[0].test.ops) == 1:
-                rhs = fails[0].test.comparators[0]
+            ftest = oriented(fails[0].test, lambda e_: compact(e_) == ivar) if len(fails) == 1 else None
+            if len(fails) == 1 and isinstance(ftest, ast.Compare) and compact(ftest.left) == ivar and len(ftest.ops) == 1:
+                rhs = ftest.comparators[0]
                 k = None
                 if compact(rhs) == 'niter':
                     k = 0
                 elif isinstance(rhs, ast.BinOp) and compact(rhs.left) == 'niter' and isinstance(rhs.right, ast.Constant) and isinstance(rhs.op, (ast.Add, ast.Sub)):
                     k = rhs.right.value if isinstance(rhs.op, ast.Add) else -rhs.right.value
                 if k is not None:
-                    form = (type(fails[0].test.ops[0]), k)
+                    form = (type(ftest.ops[0]), k)
             if form is None or not inits:
                 # another idiom: decidable only when it evidently reads a value that an empty loop never sets
                 tests = [s2 for s2 in post if isinstance(s2, ast.If) and s2.lineno < succ[0].lineno and any(isinstance(r, ast.Return) for r in ast.walk(s2))]
